@@ -13,7 +13,7 @@
  *   SHIM_CLOCK  seconds returned by clock_gettime (optional)
  *   SHIM_CLOCK_TICK_NS  simulated time that passes with every read (optional)
  *
- * Permanent kinds : probe-enoent open-eacces open-emfile read-eio
+ * Permanent kinds : probe-enoent open-eacces open-emfile read-eio read-eio-late
  *                   create-eacces create-erofs create-enoent
  *                   write-enospc write-eio write-short-enospc
  * Masked kinds    : eintr-read eintr-write short-read short-write stat-fd-fail
@@ -154,6 +154,15 @@ static void resolve_at(int dirfd, const char *path, char *out) {
 
 static int under_root(const char *abs) {
     return root_len > 0 && strncmp(abs, root, root_len) == 0 && (abs[root_len] == '/' || abs[root_len] == 0);
+}
+
+/* index of the matching plan entry, without counting it as fired */
+static int plan_find(const char *kind, const char *abs) {
+    for (int i = 0; i < nplan; i++) {
+        if (strcmp(plan[i].kind, kind) != 0) continue;
+        if (strcmp(plan[i].path, "*") == 0 ? under_root(abs) : strcmp(plan[i].path, abs) == 0) return i;
+    }
+    return -1;
 }
 
 static int plan_hit(const char *kind, const char *abs) {
@@ -320,6 +329,23 @@ ssize_t read(int fd, void *buf, size_t n) {
         if (plan_hit("read-eio", abs)) {
             logev("read", "", abs, fd, -1, EIO, 1);
             errno = EIO; return -1;
+        }
+        int late = plan_find("read-eio-late", abs);
+        if (late >= 0) {
+            /* the medium fails in the middle of the file: the first read of
+             * this descriptor delivers up to 3 bytes, every later one EIO
+             * (only the EIO counts as the fault having fired) */
+            if (fd_written[fd] > 0) {
+                plan[late].fired++;
+                logev("read", "", abs, fd, -1, EIO, 1);
+                errno = EIO; return -1;
+            }
+            long r0 = raw_read(fd, buf, n > 3 ? 3 : n);
+            int e0 = errno;
+            if (r0 > 0) fd_written[fd] = 1; else if (r0 == 0) fd_written[fd] = 1;
+            logev("read", "", abs, fd, r0, r0 < 0 ? e0 : 0, 0); /* nothing failed yet */
+            errno = e0;
+            return r0;
         }
         if (plan_hit("eintr-read", abs)) {
             fd_eintr_toggle[fd] ^= 1;
